@@ -21,6 +21,10 @@ type ResDef struct {
 	PerCID bool `json:"percid,omitempty"`
 	// Missing: get requests are answered with system.notFound.
 	Missing bool `json:"missing,omitempty"`
+	// ErrMsg / ErrData: message and data member of the system.notFound error a
+	// missing resource is answered with (default message "E", no data)
+	ErrMsg  string `json:"errmsg,omitempty"`
+	ErrData string `json:"errdata,omitempty"`
 	// AnyQuery: every raw query is accepted and normalises to itself.
 	AnyQuery bool `json:"anyquery,omitempty"`
 }
